@@ -24,6 +24,7 @@ ASSUMPTIONS = [
     "'ordinal' ranks are only required to be a permutation consistent with "
     'the value order (ties depend on storage order)',
 ]
+ANCHORS = ['Table.transform', 'Table.norm', 'Table.pa', 'Table.rankdata', '_normalize_table']
 REQUIRED = ['tap_calls_checked', 'op_transform', 'op_norm', 'op_pa',
             'op_rankdata', 'cli_runs', 'axis_agreement_checked',
             'layout_csc_seen', 'layout_unsorted_seen', 'zero_cells_checked']
